@@ -2,6 +2,8 @@ package verifh
 
 import (
 	rt "github.com/protobom/protobom/internal/verifrt"
+	"github.com/protobom/protobom/pkg/native"
+	"github.com/protobom/protobom/pkg/native/serializers"
 	"github.com/protobom/protobom/pkg/sbom"
 )
 
@@ -161,5 +163,31 @@ func H_C11_UnionGeneral() {
 	rt.Thaw()
 	rt.Freeze("C11.NodeList.Intersect.nowrite", a, b)
 	a.Intersect(b)
+	rt.Thaw()
+}
+
+// c11doc: a single-rooted document whose edges include repeated and several targets, from root and non-root nodes.
+func c11doc() *sbom.Document {
+	nl := c11list("d", false)
+	nl.RootElements = []string{"a"}
+	x, y := rt.NondetString("dto"), rt.NondetString("dto")
+	nl.Edges = []*sbom.Edge{
+		{Type: sbom.Edge_contains, From: "a", To: withSpare([]string{"b"}, "c")},
+		{Type: sbom.Edge_dependsOn, From: "b", To: withSpare([]string{x, y, "c"}, "dep")},
+	}
+	return &sbom.Document{Metadata: &sbom.Metadata{Id: "doc", Version: "1", Name: "n"}, NodeList: nl}
+}
+
+func H_C11_SerializeCDX() {
+	doc := c11doc()
+	rt.Freeze("C11.CDX.Serialize.nowrite", doc)
+	serializers.NewCDX("1.5", "json").Serialize(doc, &native.SerializeOptions{}, nil)
+	rt.Thaw()
+}
+
+func H_C11_SerializeSPDX() {
+	doc := c11doc()
+	rt.Freeze("C11.SPDX23.Serialize.nowrite", doc)
+	serializers.NewSPDX23().Serialize(doc, &native.SerializeOptions{}, nil)
 	rt.Thaw()
 }
